@@ -496,7 +496,7 @@ func (e *Engine) vspecCall(st *State, fr *Frame, name string, args []Val) ([]Out
 		}
 		s2 := st.clone()
 		s2.spec = true
-		s2.goal = false
+		s2.goal = skolem // a quantifier directly inside the body of a skolemised one is in a positive position too
 		s2.trace = &readTrace{bases: map[string]*Term{}}
 		n0 := len(s2.pc)
 		saved := e.paths
@@ -545,6 +545,61 @@ func (e *Engine) vspecCall(st *State, fr *Frame, name string, args []Val) ([]Out
 		qf := &Term{Leaf: fresh("qf"), W: 0, QDef: all}
 		registerQFacts(qf, bv, guarded, s2.trace.reads)
 		return one(qf)
+	case "Seen16":
+		// Seen16(m, k): the iteration over m that is in progress has already produced key k
+		mv, ok := args[0].(MapV)
+		if iv, isI := args[0].(IfaceV); isI {
+			mv, ok = iv.V.(MapV)
+		}
+		if !ok {
+			fail("Seen16: not a map")
+		}
+		var it *IterObj
+		best := -1
+		for id, ob := range st.objs {
+			if io, isIt := ob.(*IterObj); isIt && io.Map == mv.ID && id > best {
+				best, it = id, io
+			}
+		}
+		if it == nil {
+			fail("Seen16: no iteration over this map is in progress")
+		}
+		return one(Select(it.Seen, mapKeyTerm(args[1]), 0))
+	case "Exists":
+		// Exists(lo, hi, p) is the negation of "for all k in [lo, hi): not p(k)"; the universal fact is named and
+		// never skolemised, so the result may be used in any position
+		lo, hi := asTerm(args[0]), asTerm(args[1])
+		fv, ok := args[2].(FuncV)
+		if !ok {
+			fail("Exists: not a function literal")
+		}
+		bv := BoundVar(fresh("k"), 64)
+		s2 := st.clone()
+		s2.spec = true
+		s2.goal = false // (the body of Exists sits under a negation)
+		s2.trace = &readTrace{bases: map[string]*Term{}}
+		n0 := len(s2.pc)
+		saved := e.paths
+		outs := e.execFunc(s2, fv.Fn, []Val{bv}, fv.Bind, 1)
+		e.paths = saved
+		body := tFalse
+		for _, o := range outs {
+			body = Or(body, And(append(append([]*Term{}, o.st.pc[n0:]...), asTerm(o.ret[0]))...))
+		}
+		guarded := Implies(And(SLe(lo, bv), SLt(bv, hi)), Not(body))
+		all := Forall(bv, guarded)
+		if freeBound(guarded, map[string]bool{bv.Leaf: true}) {
+			all.hasBound = true
+			for _, rd := range s2.trace.reads {
+				if rd.abs.hasBound {
+					all.QReads = append(all.QReads, rd)
+				}
+			}
+			return one(Not(all))
+		}
+		qf := &Term{Leaf: fresh("qf"), W: 0, QDef: all}
+		registerQFacts(qf, bv, guarded, s2.trace.reads)
+		return one(Not(qf))
 	case "ForallKeys", "ForallKeys16":
 		// ForallKeys(m, p): p(k) for every key k (of the key type's full range; p itself says "if present")
 		mv, ok := args[0].(MapV)
@@ -574,7 +629,7 @@ func (e *Engine) vspecCall(st *State, fr *Frame, name string, args []Val) ([]Out
 		}
 		s2 := st.clone()
 		s2.spec = true
-		s2.goal = false
+		s2.goal = skolem // a quantifier directly inside the body of a skolemised one is in a positive position too
 		s2.trace = &readTrace{bases: map[string]*Term{}}
 		n0 := len(s2.pc)
 		saved := e.paths
@@ -585,6 +640,7 @@ func (e *Engine) vspecCall(st *State, fr *Frame, name string, args []Val) ([]Out
 			body = Or(body, And(append(append([]*Term{}, o.st.pc[n0:]...), asTerm(o.ret[0]))...))
 		}
 		if skolem {
+			st.root.keySk = append(st.root.keySk[:len(st.root.keySk):len(st.root.keySk)], bv)
 			e.instantiateAtReads(st, s2.trace.reads)
 			st.root.instantiateLoose(bv)
 			if body.C == nil {
@@ -765,6 +821,24 @@ func (e *Engine) eqBytes(st *State, a, b SliceV) *Term {
 // hypotheses about the same memory are instantiated there (into the real state the goal is evaluated from).
 func (e *Engine) instantiateAtReads(st *State, reads []traceRead) {
 	done := map[string]bool{}
+	// a goal quantified over map keys is skolemised with a key constant sk; the case "sk is the key the iteration in
+	// progress has just produced" needs the hypotheses about that key's data: the reads are also tried with sk
+	// replaced by each such key (any instance of a hypothesis is valid)
+	all := append([]traceRead{}, reads...)
+	for _, sk := range st.root.keySk {
+		for _, ik := range st.root.iterKeys {
+			if sk.W != ik.W {
+				continue
+			}
+			for _, rd := range reads {
+				if !strings.Contains(rd.key, sk.Leaf) && !strings.Contains(rd.abs.String(), sk.Leaf) {
+					continue
+				}
+				all = append(all, traceRead{replaceToken(rd.key, sk.Leaf, ik.Leaf), subst(rd.abs, sk.Leaf, ik)})
+			}
+		}
+	}
+	reads = all
 	for _, rd := range reads {
 		for _, f := range allQFacts {
 			if f.Key != rd.key || !st.root.qfActive[f.QF.Leaf] {
